@@ -19,7 +19,8 @@ RULE = ('Hypothesis-generated Interest/Data cases: name 0..6 components of any t
         'RSA-1024/2048, ECDSA P-256/384/521 with pinned nonce, Ed25519, synthetic Signer reserving R<253 and writing r<=R}. '
         'Oracle: emitted wire must be byte-identical to the packet assembled by an independent encoder (signature value '
         'checked by independent verification), strict walk must succeed, and parse_* must return the inputs. '
-        'Grid sub-check enumerates (R, r) x outer-length boundary offsets x kind completely. '
+        'Half of the cases re-use the caller\'s name object: it must be unchanged after the call and a second packet built from it '
+        'must be identical. Grid sub-check enumerates (R, r) x outer-length boundary offsets x kind completely. '
         'Non-trivial = signature shrunk, or outer length changes encoding form between reserved and final size, or >=2 optional '
         'fields; distinct key = (kind, signer kind, shrink, length form before->after, optional-field bitmask).')
 ASSUMPTIONS = [
